@@ -586,7 +586,6 @@ package scipipe
 //@ ghost func reGroup(pat string, s string, i int) string
 //@ ghost func afterLastSlash(x string) string
 //@ ghost func beforeLastSlash(x string) string
-//@ ghost func foldMods(x string, ms seq[string], n int) string
 
 // Assumed facts about Go's regexp for the four pattern literals of applyPathModifiers (validated by differential tests).
 //@ axiom re.subst.groups: forall m string :: isSubstMod(m) ==> reGroup("s\\/([^\\/]+)\\/([^\\/]*)\\/", m, 1) == substA(m) && reGroup("s\\/([^\\/]+)\\/([^\\/]*)\\/", m, 2) == substB(m)
@@ -600,8 +599,6 @@ package scipipe
 //@ axiom beforeLastSlash.none: forall x string :: !contains(x, "/") ==> beforeLastSlash(x) == x
 //@ axiom nonewline.stable.after: forall x string :: !contains(x, "\n") ==> !contains(afterLastSlash(x), "\n")
 //@ axiom nonewline.stable.before: forall x string :: !contains(x, "\n") ==> !contains(beforeLastSlash(x), "\n")
-//@ axiom foldMods.zero: forall x string, ms seq[string] :: foldMods(x, ms, 0) == x
-//@ axiom foldMods.step: forall x string, ms seq[string], n int :: n > 0 ==> foldMods(x, ms, n) == modstep(foldMods(x, ms, n - 1), ms[n - 1])
 
 //@ extern (*regexp.Regexp).MatchString(re, s) (res)
 //@   deterministic by-contract pure library function
@@ -618,12 +615,16 @@ package scipipe
 //@ define trimSuffix(x string, s string) string = ite(len(x) > len(s) && hasSuffix(x, s), substr(x, 0, len(x) - len(s)), x)
 //@ define modstep(x string, m string) string = ite(m == "basename", afterLastSlash(x), ite(m == "dirname", beforeLastSlash(x), ite(hasPrefix(m, "%"), trimSuffix(x, substr(m, 1, len(m) - 1)), ite(isSubstMod(m), replaceFirst(x, substA(m), substB(m)), x))))
 
+//@ ghost func applyMods(path string, modifiers seq[string]) string
 //@ func applyPathModifiers(path, modifiers) (res)
 //@   props C15
 //@   deterministic structural
 //@   requires documented: forall j int :: 0 <= j && j < len(modifiers) ==> docMod(modifiers[j])
 //@   requires no-newline: !contains(path, "\n")
-//@   ensures left-to-right: res == foldMods(path, modifiers, len(modifiers))
+//@   assumes functional: res == applyMods(path, modifiers)
+//@   ensures no-modifiers: len(modifiers) == 0 ==> res == path
+//@   ensures no-newline: !contains(res, "\n")
 //@   loop 0 invariant range: 0 <= $i && $i <= len(modifiers)
-//@   loop 0 invariant fold: replacement == foldMods(path, modifiers, $i)
+//@   loop 0 invariant start: $i == 0 ==> replacement == path
 //@   loop 0 invariant no-newline: !contains(replacement, "\n")
+//@   loop 0 step left-to-right: $i == prev($i) + 1 && replacement == modstep(prev(replacement), modifiers[prev($i)])
